@@ -62,6 +62,8 @@ impl OperationControl for Atom {
         matcher: &'a ReMatcher,
         position: usize,
     ) -> Box<dyn Iterator<Item = usize> + 'a> {
+        #[cfg(feature = "verif-hooks")]
+        crate::verif::step(crate::verif::site::OP_ATOM);
         let in_ = &matcher.search;
         if (position + self.len) > in_.len() {
             return Box::new(std::iter::empty());
